@@ -233,16 +233,11 @@ public:
         for (auto &kv : a.lv) if (kv.first.first >= NACC || kv.first.second >= NKEY) fail("C18:harness:key-outside-universe");
         const bool atmOp = op.kind == Op::Man || op.kind == Op::Msg;
 
-        // --- is there a held-back decision whose sender KEY ID became authenticated under ANOTHER account in this step (root cause of the known corner)?
-        bool crossOwnerRoot = false;
-        if (atmOp) for (auto &r : P) {
-            if (r.stale || b.level(r.sacc, r.sk) == L_AUTH) continue;
-            bool inLibBefore = b.pp.count(PEntry(r.sk, r.owner, r.key, r.trust)), inLibAfter = a.pp.count(PEntry(r.sk, r.owner, r.key, r.trust));
-            if (!inLibBefore || inLibAfter) continue;
-            const int expected = r.trust ? L_AUTH : L_MANDIS;
-            if (!(a.level(r.owner, r.key) == expected && b.level(r.owner, r.key) != expected)) continue;   // took effect now
-            for (int acc2 = 0; acc2 < NACC; acc2++) if (acc2 != r.sacc && (a.level(acc2, r.sk) == L_AUTH || a.level(acc2, r.sk) == L_MANDIS)) crossOwnerRoot = true;
-        }
+        // Known corner (finding C18:cross-owner-key-id): once a key ID has been used with two accounts in this sequence, held-back
+        // entries filed under that ID can fire for the wrong account and cascade.  An out-of-scope change is attributed to it only if
+        // key IDs are shared AND some held-back entry was consumed in this very step; otherwise it is a plain scope failure.
+        bool consumed = false;
+        for (auto &pe : b.pp) if (!a.pp.count(pe)) consumed = true;
 
         if (op.kind == Op::Msg) {
             const bool self = op.acc == own && op.res == ownRes;
@@ -256,8 +251,7 @@ public:
             // (2) and stays within the sender's scope
             for (auto &c : changed) {
                 if (op.acc == own || c.first == op.acc) { oraclePass()++; continue; }
-                bool heldForOwner = false; for (auto &r : P) if (r.owner == c.first) heldForOwner = true;
-                if (shared[e] && crossOwnerRoot && heldForOwner) { fail("C18:cross-owner-key-id", "level of " + std::to_string(c.first) + ":" + std::to_string(c.second) + " moved by a message from account " + std::to_string(op.acc)); stat("cross_owner_scope_escape"); }
+                if (shared[e] && consumed) { fail("C18:cross-owner-key-id", "level of " + std::to_string(c.first) + ":" + std::to_string(c.second) + " moved by a message from account " + std::to_string(op.acc)); stat("cross_owner_scope_escape"); }
                 else fail("C18:scope", std::to_string(c.first) + ":" + std::to_string(c.second));
             }
             // (3) decisions of an unauthenticated sender are held back (in scope) or dropped (out of scope), nothing else is stored
@@ -283,7 +277,15 @@ public:
                     bool named = std::get<0>(pe) == op.sk;
                     if (!named) fail("C18:foreign-entry-stored");
                 }
+                // a decision that the message states only one way is held with that verdict
+                for (auto &ko : op.owners) if (op.acc == own || ko.jid == op.acc) for (int pass = 0; pass < 2; pass++) for (int k : (pass ? ko.di : ko.tr)) {
+                    bool bothWays = false;
+                    for (auto &ko2 : op.owners) if (ko2.jid == ko.jid) for (int k2 : (pass ? ko2.tr : ko2.di)) if (k2 == k) bothWays = true;
+                    if (bothWays) continue;
+                    if (!a.pp.count(PEntry(op.sk, ko.jid, k, pass ? 0 : 1))) fail("C18:held-with-wrong-verdict"); else oraclePass()++;
+                }
             }
+            if (shouldProcess && authd) { bool added = false; for (auto &pe : a.pp) if (!b.pp.count(pe)) added = true; if (added) fail("C18:authorised-message-held-back"); else oraclePass()++; }
         }
 
         // --- held-back decisions: take effect exactly when the sender key becomes authenticated; discarded when it is distrusted.
@@ -335,7 +337,16 @@ public:
                 if (senderDistrusted) { stat("held_decision_discarded_sender_distrusted_again"); continue; }
                 if (strict) {
                     // without shared key IDs the only legitimate reason is that the same decision was just made for this very key by someone authorised
-                    if (sameKeyDecided) { stat("held_decision_superseded"); oraclePass()++; } else fail("C18:held-entry-vanished", recText(r));
+                    // ... i.e. this operation itself names the key with that verdict, or another held decision with the same content fired
+                    // because ITS sender key is authenticated now
+                    bool legit = false;
+                    if (op.kind == Op::Man && op.o == r.owner) for (int k : (r.trust ? op.a : op.d)) if (k == r.key) legit = true;
+                    if (op.kind == Op::Msg && (op.acc == own || op.acc == r.owner)) for (auto &ko : op.owners) if (ko.jid == r.owner) for (int k : (r.trust ? ko.tr : ko.di)) if (k == r.key) legit = true;
+                    for (auto &q : P) if (!(q.sacc == r.sacc && q.sk == r.sk) && q.owner == r.owner && q.key == r.key && q.trust == r.trust && (a.level(q.sacc, q.sk) == L_AUTH || touchedIds.count(q.sk)) &&
+                                         b.pp.count(PEntry(q.sk, q.owner, q.key, q.trust)) && !a.pp.count(PEntry(q.sk, q.owner, q.key, q.trust))) legit = true;
+                    if (!sameKeyDecided) fail("C18:held-entry-vanished", recText(r));
+                    else if (!legit) fail("C18:fired-without-authenticated-sender", recText(r));
+                    else { stat("held_decision_superseded"); oraclePass()++; }
                     continue;
                 }
                 bool otherAuth = false, otherDis = false;
